@@ -234,7 +234,7 @@ func (P *Program) contractFor(f *ssa.Function) *FuncInfo {
 }
 
 func (vc *VC) havocAll(st *State) {
-	for name := range vc.heapSort {
+	for _, name := range sortedKeys(vc.heapSort) {
 		if strings.HasPrefix(name, "iter@") || strings.HasPrefix(name, "Local_") || strings.HasPrefix(name, "$") {
 			continue // range iterators and non-escaping locals cannot be reached by a callee
 		}
@@ -476,11 +476,11 @@ func (vc *VC) havocByTypes(ts []types.Type, all bool, st *State) {
 		vc.havocAll(st)
 		return
 	}
-	for n := range names {
+	for _, n := range sortedKeys(names) {
 		vc.havocHeap(st, n)
 	}
 	// mutable globals may change in any unknown call
-	for n := range vc.heapSort {
+	for _, n := range sortedKeys(vc.heapSort) {
 		if strings.HasPrefix(n, "G_") {
 			vc.havocHeap(st, n)
 		}
@@ -750,7 +750,8 @@ func (vc *VC) frameCheck(st *State, reach Term, pos token.Pos) {
 			}
 		}
 	}
-	for name, sort := range vc.heapSort {
+	for _, name := range sortedKeys(vc.heapSort) {
+		sort := vc.heapSort[name]
 		if name == "alloc" || strings.HasPrefix(name, "iter@") || strings.HasPrefix(name, "Local_") || strings.HasPrefix(name, "$") {
 			continue // (ghost state -- names starting with $ -- is not memory)
 		}
